@@ -61,7 +61,7 @@ pub fn generate(tier: &str, rng: &mut Rng) -> Vec<Spec> {
         if i % 2 == 0 { s = s.with("shift", rng.below(len as u64 + 3)); }
         v.push(s.with("xs", join(&xs)));
     }
-    v
+    add_entry_points(v, rng, &["max", "min", "bounds"], 60, |rng: &mut Rng| { let l = rng.range(1, 4); (0..l).map(|k| if k == 0 { rng.range(5, 9).to_string() } else { rng.range(-11, 11).to_string() }).collect::<Vec<_>>().join(",") })
 }
 
 fn taps_of<const N: usize>(cb: &CircularBuffer<N, (i64, usize)>) -> Vec<(i64, usize)> { cb.iter().cloned().collect() }
@@ -71,8 +71,8 @@ fn shifted(taps: &[(i64, usize)], d: usize) -> Vec<(i64, usize)> { taps.iter().m
 
 fn run<const N: usize>(kind: &str, pre: &[i64], shift: Option<usize>, xs: &[i64], stats: &mut Stats) -> Outcome {
     // 1. reach a well-formed state on the real code, 2. move its clock, 3. re-inject it
-    let mut fmax: max::Max<i64, N> = Default::default();
-    let mut fmin: min::Min<i64, N> = Default::default();
+    let mut fmax: max::Max<i64, N> = enter(Default::default(), stats, |f: &mut max::Max<i64, N>, t| { f.filter(t.parse::<i64>().unwrap()); });
+    let mut fmin: min::Min<i64, N> = enter(Default::default(), stats, |f: &mut min::Min<i64, N>, t| { f.filter(t.parse::<i64>().unwrap()); });
     for x in pre { fmax.filter(*x); fmin.filter(*x); }
     let (gmax, gmin) = (fmax.into_guts(), fmin.into_guts());
     let t = gmax.time;
